@@ -7,7 +7,8 @@ LEVEL = "exploration"
 RULE = ("every evolventDensity m in 2..12 x every dimension N in 2..5 x boxes of every kind x objectives (cones, sines, linear, noise), the density given by constructor keyword, positionally, by attribute assignment, as a Python int or a numpy integer scalar, and by re-assigning it on one parameters object reused for several Solvers; each "
         "global-phase trial point must satisfy ((y-lower)/side)*2^m - 1/2 = integer in [0,2^m) within a rounding-derived tolerance <= 4e-6 (cell centres of different "
         "densities never coincide, so membership in the configured grid excludes every other density). Non-trivial: >= 10 trials; "
-        "distinct = (N, m, box kind, family, number of distinct cells visited).")
+        "distinct = (N, m, box kind, family, number of distinct cells visited)."
+       ' A group of boxes has one side 1e11..1e15 times longer than another.')
 ASSUMPTIONS = ["refinement evaluations themselves leave the grid by design; the global-phase trials made before AND after a refinement are checked",
                "|lower|/side <= 1e6: rounding of the affine map stays below 4e-6 cell widths for m <= 12 (tolerance max(1e-6, 8 ulp(max|bound|)/side*2^m))", "refineSolution=False (refinement leaves the grid by design)"]
 
